@@ -48,6 +48,52 @@ def from_residual(ex, path, frame, callee, argv, argty, dest_ty):
     return [(path, sym.VAdt("Result", z3.BitVecVal(1, 64), {("Err", "0"): copy.deepcopy(inner)}, uid=ex.fresh_uid(path, "fromres")))]
 
 
+def enum_eq(neg):
+    """<E as PartialEq>::eq / ne when one side is a unit variant (no payload): equality of discriminants.
+    (If the discriminants are equal both sides are that payload-free variant, hence equal.)"""
+    def f(ex, path, frame, callee, argv, argty, dest_ty):
+        vs = []
+        for a in argv[:2]:
+            k = 0
+            while isinstance(a, sym.VRef) and k < 4:
+                a = ex.read_loc(path, a.obj, a.proj)
+                k += 1
+            vs.append(a)
+        if len(vs) != 2:
+            return None
+        unit = [v for v in vs if isinstance(v, sym.VAdt) and v.discr is not None and not v.fields and z3.is_bv_value(z3.simplify(v.discr))]
+        if not unit:
+            return None
+        other = vs[1] if vs[0] is unit[0] else vs[0]
+        if isinstance(other, sym.VUnknown):
+            other = ex.as_adt(other, None, True)
+        if not isinstance(other, sym.VAdt) or other.discr is None:
+            return None
+        e = other.discr == unit[0].discr
+        return [(path, sym.VBool(z3.Not(e) if neg else e))]
+    return f
+
+
+def mem_replace(ex, path, frame, callee, argv, argty, dest_ty):
+    # core::mem::replace(dest: &mut T, src: T) -> T
+    d = argv[0]
+    if not isinstance(d, sym.VRef):
+        return None
+    old = copy.deepcopy(ex.read_loc(path, d.obj, d.proj))
+    ex.write_loc(path, d.obj, d.proj, argv[1])
+    return [(path, old)]
+
+
+def mem_swap(ex, path, frame, callee, argv, argty, dest_ty):
+    a, b = argv[0], argv[1]
+    if not (isinstance(a, sym.VRef) and isinstance(b, sym.VRef)):
+        return None
+    va, vb = copy.deepcopy(ex.read_loc(path, a.obj, a.proj)), copy.deepcopy(ex.read_loc(path, b.obj, b.proj))
+    ex.write_loc(path, a.obj, a.proj, vb)
+    ex.write_loc(path, b.obj, b.proj, va)
+    return [(path, sym.VUnit())]
+
+
 def panic_model(ex, path, frame, callee, argv, argty, dest_ty):
     return [(path, ("panic", mirname(callee)))]
 
@@ -57,6 +103,10 @@ def mirname(c):
 
 
 STANDARD = [
+    (r"^(std|core)::mem::replace::<.*>$", mem_replace),
+    (r"^(std|core)::mem::swap::<.*>$", mem_swap),
+    (r"^<.* as PartialEq>::eq$", enum_eq(False)),
+    (r"^<.* as PartialEq>::ne$", enum_eq(True)),
     (r"^<.* as Clone>::clone$", clone_model),
     (r"^<.* as Try>::branch$", try_branch),
     (r"^<.* as FromResidual<.*>>::from_residual$", from_residual),
